@@ -70,6 +70,9 @@ type Config struct {
 	// BusyTimeoutMS is litestream's SQLite busy timeout (0 = fail immediately, the harness default; the
 	// product default is 1000). Only the LCW operation needs it to be non-zero.
 	BusyTimeoutMS int `json:"busy_timeout_ms,omitempty"`
+	// Daemon: litestream objects created from now on run their own monitors (DB monitor and replica monitor at a
+	// 1 ms interval), as `litestream replicate` does; used by C05's daemon-mode phase only.
+	Daemon bool `json:"daemon,omitempty"`
 	// ReplicaFaults makes the RF operation legal: a one-shot failure of the next upload (WriteLTXFile).
 	ReplicaFaults bool `json:"replica_faults,omitempty"`
 }
@@ -390,6 +393,11 @@ func (s *Scn) lsNew() error {
 	client := file.NewReplicaClient(s.ReplicaDir)
 	rep := litestream.NewReplicaWithClient(db, client)
 	rep.MonitorEnabled = false
+	if s.Cfg.Daemon {
+		db.MonitorInterval = time.Millisecond
+		rep.MonitorEnabled = true
+		rep.SyncInterval = time.Millisecond
+	}
 	db.Replica = rep
 	client.Replica = rep
 	s.DB, s.Client = db, client
